@@ -94,4 +94,107 @@ PROPS = {
             "a simplified expression that itself overflows i32 is accepted if exact or wrapped evaluation at that node yields the reference value",
         ],
     ),
+    "C12": dict(
+        gen=dict(script="modelgen.py", args=["--family", "singleop"]),
+        steps=[native("modelcheck", ["c12"], shards=4)],
+        floor={Q: 40, T: 60},
+        assumptions=["operators and attribute settings come from the generator's catalogue (gen/onnxgen/ops.py); sequence operators and control flow are not in it"],
+    ),
+    "C13": dict(
+        gen=dict(script="modelgen.py", args=["--family", "singleop"]),
+        steps=[native("modelcheck", ["c13"], shards=4)],
+        floor={Q: 1000, T: 10000},
+        assumptions=["in-place execution is driven through Model::run with an owned input; whether it really happened is read from the executor's OpRun event (hook)"],
+    ),
+    "C14": dict(
+        gen=dict(script="modelgen.py", args=["--family", "singleop"]),
+        steps=[native("modelcheck", ["c14"], shards=4)],
+        floor={Q: 1000, T: 10000},
+        assumptions=["matmul/conv/reduction/normalisation operators are compared with an accumulation tolerance, everything else bit-exactly"],
+    ),
+    "C18": dict(
+        steps=[native("simdcheck", ["isa"], timeout={Q: 600, T: 3 * 3600})],
+        floor={Q: 1500, T: 1500},
+        assumptions=["scalar definitions in simdcheck/oracle.rs are written from the trait doc comments",
+                     "cases the docs leave open are skipped or only compared across ISAs (listed in oracle.rs)",
+                     "guard pages see any access outside the page-flush side; the other side is covered by canaries and the opposite placement"],
+    ),
+    "C19": dict(
+        steps=[native("simdcheck", ["math"], timeout={Q: 600, T: 3 * 3600})],
+        floor={Q: 5000, T: 5000},
+        assumptions=["an argument is a violation only if the documented bound fails against both the in-tree f32 reference and the libm-crate f64 reference rounded to f32",
+                     "ULP and absolute error definitions copied from rten-vecmath/src/testing.rs and ulp.rs"],
+    ),
+    "C27": dict(steps=[native("textcheck", ["c27"], shards=4)], floor={Q: 2000, T: 100000},
+        assumptions=["harness GPT-2 byte table and BPE trainer are independent of rten",
+                     "round trip is only promised when a configured normalizer leaves the text unchanged; Remove-type splits are only generated with patterns that match every character"]),
+    "C28": dict(steps=[native("textcheck", ["c28"], shards=4)], floor={Q: 10000, T: 500000},
+        assumptions=["the string-level reference (lowest rank, leftmost, one occurrence at a time) is the ground truth; tables with duplicate pairs are not generated"]),
+    "C29": dict(steps=[native("textcheck", ["c29"], shards=4)], floor={Q: 2000, T: 100000},
+        assumptions=["for pairs the statement is read as: windows of the second sequence, an identical prefix of the first sequence repeated in every chunk"]),
+    "C30": dict(steps=[native("textcheck", ["c30"], shards=4)], floor={Q: 5000, T: 500000},
+        assumptions=["only the structural invariants of the statement are checked, not that each offset points at the character the byte was derived from"]),
+    "C31": dict(steps=[native("gencheck", ["c31"], shards=4)], floor={Q: 20000, T: 1000000},
+        assumptions=["f32::total_cmp ordering with zero sign / NaN payload ignored is the reference",
+                     "top-p thresholds decided exactly where all partial sums are f32-exact, else with a 5e-5 band"]),
+    "C32": dict(steps=[native("gencheck", ["c32"], shards=1, timeout={Q: 600, T: 3600})], floor={Q: 2000, T: 500000},
+        assumptions=["a mock Model stands in for rten::Model; the 30-line reference state machine is the specification"]),
+    "C33": dict(steps=[native("gencheck", ["c33"], shards=4)], floor={Q: 300, T: 5000}),
+    "C39": dict(steps=[native("ctccheck", ["c39"], shards=1, timeout={Q: 600, T: 3600})], floor={Q: 5000, T: 300000},
+        assumptions=["f64 enumeration of all alignments / f64 forward algorithm are exact (they are cross-checked against each other on every small case)"]),
+    "C02": dict(
+        gen=dict(script="modelgen.py", args=["--family", "dag,cflow"]),
+        steps=[native("modelcheck", ["c02"], shards=8)],
+        floor={Q: 200, T: 5000},
+        assumptions=["operator-at-a-time evaluation of the un-optimised model through Model::run (borrowed inputs, fresh pool, one operator per call) is the naive reference",
+                     "float comparison with the reference uses 1e-4 + 1e-3*|b| because multi-threaded reductions may reorder; strategies in the same (threads, prepack, optimise) group are compared bit-exactly"],
+    ),
+    "C04": dict(
+        gen=dict(script="modelgen.py", args=["--family", "dag,dagrand,cflow"]),
+        steps=[native("modelcheck", ["c04"], shards=8)],
+        floor={Q: 200, T: 5000},
+        assumptions=["values downstream of random operators are identified by the generator's own reachability computation"],
+    ),
+    "C25": dict(
+        gen=dict(script="modelgen.py", args=["--family", "dag,cflow"]),
+        steps=[native("modelcheck", ["c25"], shards=8)],
+        floor={Q: 200, T: 5000},
+        assumptions=["borrowed-input immutability is observed on the bytes of the backing storage including gaps of stepped views; constants are read back through run([], [const])"],
+    ),
+    "C26": dict(
+        gen=dict(script="modelgen.py", args=["--family", "dag,cflow"]),
+        steps=[native("modelcheck", ["c26"], shards=8)],
+        floor={Q: 2000, T: 50000},
+        assumptions=["a request without a required input is only demanded to fail when run (not partial_run) is used and is otherwise counted, since whether an input is required depends on the requested outputs"],
+    ),
+    "C24": dict(
+        gen=dict(script="modelgen.py", args=["--family", "cflow"]),
+        steps=[native("modelcheck", ["c24"], shards=4)],
+        floor={Q: 500, T: 10000},
+        assumptions=["the inlined model is produced by the generator from the same body functions; a zero-iteration loop with a scan output is not generated (its shape is undefined and rten reports an error)"],
+    ),
+    "C03": dict(
+        steps=[native("plancheck", ["c03"], shards=1, timeout={Q: 900, T: 3 * 3600})],
+        floor={Q: 100000, T: 100000},
+        assumptions=[
+            "the harness's dependency relation (inputs + by-name captures; one producer per value) is the ground truth",
+            "mock operators never fail",
+            "a 0.7 s + 3 s time limit in a child process decides non-termination of planning graphs with <= 10 operators",
+        ],
+    ),
+    "C23": dict(
+        steps=[
+            native("poolcheck", ["c23"], shards=4),
+            asan("poolcheck", ["c23"], shards=4, extra={Q: {"n": 400}, T: {"n": 20000}}, env={"VERIF_TRACK": "0"}),
+            tsan("poolcheck", ["c23"], tiers=(T,), shards=4, extra={T: {"n": 2000}}),
+            miri("poolcheck", ["c23"], tiers=(T,), shards=8, extra={T: {"n": 256}}, timeout={T: 3600}),
+        ],
+        floor={Q: 500, T: 20000},
+        parallel_steps=2,
+        assumptions=[
+            "a holder de-registers before it gives a buffer back, so a registered pointer returned by alloc is a genuine double hand-out",
+            "all workload allocations happen inside track::scope",
+            "ASan run has the tracker off",
+        ],
+    ),
 }
